@@ -186,6 +186,38 @@ def run_case(case):
                 bad("%s raises %s on a permuted batch" % (mm, type(ex).__name__), "permutation", "%s %s" % (str(ex)[:200], desc0))
                 continue
             compare(mm, idx, got, "permutation")
+    # a large batch that covers every training row (hence every trained bucket / leaf / cell) plus rows outside the
+    # training range: each row alone, and the two halves, must give the rows of the big-batch output
+    if kind in ("reg", "clf", "cluster", "poly", "nmf"):
+        X = dat["X"]
+        lo, hi = X.min(axis=0), X.max(axis=0)
+        extra = numpy.array([lo - 1.0, hi + 1.0, (lo + hi) / 2] + [lo + f * (hi - lo) * numpy.array([1.0] + [1.0 - f] * (X.shape[1] - 1))
+                                                                    for f in (0.15, 0.35, 0.6, 0.85)])
+        B = numpy.vstack([X, extra])
+        tb = _tie_rows(est, B) if kind == "clf" else set()
+        for mm in methods:
+            try:
+                big = _call(est, mm, B, kind)
+            except Exception as ex:
+                bad("%s raises %s on a large batch" % (mm, type(ex).__name__), "large batch", "%s %s" % (str(ex)[:200], desc0))
+                continue
+            parts = [[i] for i in range(len(B))] + [list(range(0, len(B) // 2)), list(range(len(B) // 2, len(B))), list(range(len(X), len(B)))]
+            for idx in parts:
+                cnt += 1
+                try:
+                    got = _call(est, mm, B[idx], kind)
+                except Exception as ex:
+                    bad("%s raises %s on a sub-batch" % (mm, type(ex).__name__), "large batch", "%s rows=%r %s" % (str(ex)[:200], idx[:5], desc0))
+                    break
+                keep = [j for j, i in enumerate(idx) if i not in tb]
+                g, x = got[keep], big[idx][keep]
+                okk = (numpy.allclose(g.astype(float), x.astype(float), rtol=1e-9, atol=1e-12, equal_nan=True)
+                       if g.dtype.kind in "fiub" and x.dtype.kind in "fiub" else numpy.array_equal(g.astype(str), x.astype(str)))
+                if got.shape[0] != len(idx) or not okk:
+                    bad("%s: a row's output depends on the rest of the batch" % mm, "batch covering every training row",
+                        "rows=%r alone/sub-batch %s, inside the large batch %s %s" % (idx[:5], numpy.array2string(g.ravel()[:6], precision=6),
+                                                                                      numpy.array2string(x.ravel()[:6], precision=6), desc0))
+                    break
     # persistence
     def op_pickle(o):
         return pickle.loads(pickle.dumps(o))
